@@ -164,7 +164,12 @@ where
     // leading zeros, and then calculate the exponent as the offset.
     let digits = &buffer[integer_cursor..fraction_cursor];
     let zero_count = ltrim_char_count(digits, b'0');
-    let sci_exp: i32 = initial_cursor as i32 - integer_cursor as i32 - zero_count as i32 - 1;
+    let sci_exp: i32 = if zero_count == digits.len() {
+        // Only wrote a `0`: zero has a scientific exponent of 0.
+        0
+    } else {
+        initial_cursor as i32 - integer_cursor as i32 - zero_count as i32 - 1
+    };
     write_float!(
         float,
         FORMAT,
